@@ -4,6 +4,7 @@ import hashlib
 import marshal
 import os
 import sys
+import types
 
 from xonsh import __version__ as XONSH_VERSION
 from xonsh.built_ins import XSH
@@ -170,6 +171,9 @@ def script_cache_check(filename, cachefname):
                     # Cache file is corrupted (e.g. truncated by a crash).
                     # Ignore it — the script will be recompiled and cached again.
                     return False, None
+                if not isinstance(ccode, types.CodeType):
+                    # Damaged payload that still unmarshals (to a str, float, ...).
+                    return False, None
                 run_cached = True
     return run_cached, ccode
 
@@ -228,6 +232,9 @@ def code_cache_check(cachefname):
             except Exception:
                 # Cache file is corrupted (e.g. truncated by a crash).
                 # Ignore it — the code will be recompiled and cached again.
+                return False, None
+            if not isinstance(ccode, types.CodeType):
+                # Damaged payload that still unmarshals (to a str, float, ...).
                 return False, None
             run_cached = True
     return run_cached, ccode
